@@ -3,6 +3,7 @@ package main
 import (
 	"fmt"
 	"go/ast"
+	"go/token"
 	"go/types"
 	"strings"
 )
@@ -192,6 +193,7 @@ func compareCoreRules(c *Ctx, leafSemantics bool) {
 		ok = reportIssues(c, rs, "R-nilness", "", s.nilnessIssues()) && ok
 		ok = reportIssues(c, rs, "R-conv", "", s.conversionIssues()) && ok
 		ok = reportIssues(c, rs, "R16", "", s.mapOrderIssues()) && ok
+		ok = reportIssues(c, rs, "R-method", "", s.operatorBeforeMethodIssues(methodPredicateName(c.R.repo, "compare.compareMethodInputParam", "Compare"))) && ok
 		if leafSemantics {
 			// C03: values that differ in the nil-ness of a slice are ordered (nil first); bytes.Compare treats nil and empty alike
 			ok = reportIssues(c, rs, "R-leaf", "", nilBlindLibCalls(s)) && ok
@@ -247,4 +249,62 @@ func compareCoreRules(c *Ctx, leafSemantics bool) {
 	c.Rep.analysed("compare_residuals", n)
 	c.Rep.analysed("compare_table_rows", rows)
 	_ = strings.TrimSpace
+}
+
+// operatorBeforeMethodIssues — compare consults a component's own Compare method before anything else (field: a named type with a
+// Compare method is compared by calling it). An ordering or equality operator between mirror components is therefore only sound for
+// a component type about which this path established that it is not a named type, or that it is one without such a method.
+// The function's own parameters are exempt (the user asked for the derived order of that very type); operands the residual does not
+// let the rule type are skipped.
+func (s *sided) operatorBeforeMethodIssues(methodPred string) []sideIssue {
+	var out []sideIssue
+	run := s.rs.Run
+	facts := kindFacts(run)
+	norm := func(o string) string { return strings.ReplaceAll(o, ".Underlying()", "") }
+	methodAsked := func(org string) bool {
+		for _, d := range run.Decisions {
+			if strings.HasPrefix(d.Sym, "B:pred:"+methodPred+"("+org+",)") {
+				return true
+			}
+		}
+		return false
+	}
+	ast.Inspect(s.body, func(n ast.Node) bool {
+		be, ok := n.(*ast.BinaryExpr)
+		if !ok {
+			return true
+		}
+		switch be.Op {
+		case token.LSS, token.GTR, token.LEQ, token.GEQ, token.EQL, token.NEQ:
+		default:
+			return true
+		}
+		if isNilLit(be.X) || isNilLit(be.Y) || lenExprArg(be.X) != nil || lenExprArg(be.Y) != nil {
+			return true
+		}
+		sx, sy := s.side(be.X), s.side(be.Y)
+		if !((sx == "A" && sy == "B") || (sx == "B" && sy == "A")) {
+			return true
+		}
+		// the parameters themselves
+		if id, ok := unparen(be.X).(*ast.Ident); ok && (id.Name == s.A || id.Name == s.B) {
+			return true
+		}
+		o := s.valOfExpr(be.X)
+		if o == nil || o.built || o.notNamed || strings.HasSuffix(o.Origin, ".Underlying()") {
+			return true
+		}
+		key := norm(o.Origin)
+		switch facts["named:"+key] {
+		case "no":
+			return true
+		case "yes":
+			if methodAsked(o.Origin) || methodAsked(key) {
+				return true
+			}
+		}
+		out = append(out, sideIssue{be, fmt.Sprintf("orders the components %s and %s with `%s` although this path never asked whether their type is a named type with its own Compare method: everywhere else a component with a Compare method is compared by calling it, so here the user's order is bypassed (Compare says 0 where Equal, which calls the Equal method, says false; sorting by the derived order disagrees with the type's own)", s.rs.src(be.X), s.rs.src(be.Y), be.Op), "operator-before-method", ""})
+		return true
+	})
+	return out
 }
